@@ -123,7 +123,7 @@ def r_acceptance(ck: Checker) -> None:
     ck.add("unbound = required but not bound by the remaining body", ub is not None and unparse(ub).replace(" ", "") == "set.union(need_bound,unbound_body)-bound_body", func, func.node, f"unbound = `{unparse(ub) if ub is not None else None}`", "")
     # sign buckets (C06)
     lits = [c for c in resolved_calls(ck.prg, func, "clingo.ast.Literal") if enclosing_loop(func, c) is not None and "cond.atom" in unparse(c)]
-    ck.need(len(lits) == 3, "simplified conditions are re-attached under NoSign, DoubleNegation or Negation")
+    ck.need(len(lits) >= 3 and {unparse(c.args[1]) for c in lits} == {"Sign.NoSign", "Sign.DoubleNegation", "Sign.Negation"}, "simplified conditions are re-attached under NoSign, DoubleNegation or Negation")
     for c in lits:
         sign = unparse(c.args[1])
         atom = unparse(c.args[2])
@@ -284,6 +284,11 @@ def r_unify_table(ck: Checker) -> None:
                 allowed = False
             ck.add(f"({a}, {b})", allowed or not may_false, func, func.node, f"may answer 'cannot unify': {may_false} ({sorted(vals)}); sound only if no ground instances can coincide: {allowed}",
                    "answering 'cannot unify' for terms that can become equal (X+1 and 3, a variable and anything) lets a rewrite assume tuples are distinct: costs are then counted twice or once too few")
+    # two unary operations with different operators (-X and |Y|) can have equal values
+    it = ck.interp(func, Pins.of(vals={f"{lhs}.ast_type": "ASTType.UnaryOperation", f"{rhs}.ast_type": "ASTType.UnaryOperation"}, facts={f"{lhs} == {rhs}": False, f"{lhs}.operator_type == {rhs}.operator_type": False}))
+    truths = it.return_truths()
+    ck.add("(UnaryOperation, UnaryOperation) with different operators", truths == {True}, func, func.node, f"possible answers {sorted(map(str, truths))}; only 'may unify' is sound",
+           "`-X` and `|Y|` are both 3 for X=-3, Y=3: the tuples `-X,P` and `|Y|,P` of two aggregate elements can coincide")
     # symbolic constants can be redefined by #const / -c
     it = ck.interp(func, Pins.of(vals={f"{lhs}.ast_type": "ASTType.SymbolicTerm", f"{rhs}.ast_type": "ASTType.SymbolicTerm"}, facts={f"{lhs} == {rhs}": False}))
     guarded = any("symbol.type" in k for ret, st in it.returns for k in list(st.vals) + list(st.facts))
